@@ -249,7 +249,7 @@ class Scn:
 
 
 def _prio(cb: Cb):
-    if cb.style in ("name", "callable"):
+    if cb.style in ("name", "callable", "attr", "evref"):
         return PRIO["inline"]
     if cb.style == "decorator":
         return PRIO["decorator"]
@@ -282,9 +282,9 @@ def flatten(scn: Scn, live=None):
         for g in inline_order:
             seen_names = {}
             for c in scn.cbs:
-                if c.at == ("t", ti) and c.group == g and c.style in ("name", "callable"):
+                if c.at == ("t", ti) and c.group == g and c.style in ("name", "callable", "attr"):
                     # one spec per distinct name: all its providers share the spec's position
-                    key = c.name if c.style == "name" else ("callable", c.id)
+                    key = c.name if c.style in ("name", "attr") else ("callable", c.id)
                     if key not in seen_names:
                         seen_names[key] = seq
                         seq += 1
@@ -323,8 +323,8 @@ def flatten(scn: Scn, live=None):
             seq = 0
             seen_names = {}
             for c in scn.cbs:
-                if c.at == ("s", si) and c.group == g and c.style in ("name", "callable"):
-                    key = c.name if c.style == "name" else ("callable", c.id)
+                if c.at == ("s", si) and c.group == g and c.style in ("name", "callable", "attr"):
+                    key = c.name if c.style in ("name", "attr") else ("callable", c.id)
                     if key not in seen_names:
                         seen_names[key] = seq
                         seq += 1
@@ -407,6 +407,14 @@ def held_events(scn: Scn, tr: Tr):
     return list(tr.events)
 
 
+def attr_value(scn: Scn, c: Cb):
+    """the (constant) value token of a plain-attribute callback in this scenario"""
+    for a in scn.acts:
+        if a[0] == c.id:
+            return a[3]
+    return 0
+
+
 def lst(xs):
     return ",".join(str(x) for x in xs) if xs else "-"
 
@@ -469,12 +477,12 @@ def registry_lines(scn: Scn):
         for g in groups:
             seen = set()
             for c in scn.cbs:
-                if c.at == at and c.group == g and c.style in ("name", "callable", "evref"):
-                    key = _name_key(c) if c.style in ("name", "evref") else ("callable", c.id)
+                if c.at == at and c.group == g and c.style in ("name", "callable", "evref", "attr"):
+                    key = _name_key(c) if c.style in ("name", "evref", "attr") else ("callable", c.id)
                     if key in seen:
                         continue
                     seen.add(key)
-                    ref = f"n{nid(key)}" if c.style in ("name", "evref") else f"c{c.id}"
+                    ref = f"n{nid(key)}" if c.style in ("name", "evref", "attr") else f"c{c.id}"
                     out.append(tok(g, ref, REAL_PRIO["inline"], expected=(g != "unless")))
         return out
 
@@ -516,7 +524,7 @@ def registry_lines(scn: Scn):
     for p in provs:
         attrs = []
         for c in scn.cbs:
-            if c.provider == p and c.style in ("conv", "name", "evref"):
+            if c.provider == p and c.style in ("conv", "name", "evref", "attr"):
                 attrs.append(f"{nid(_name_key(c))}:{c.id}")
         out.append(f"prov {pid[p]} {','.join(attrs) if attrs else '-'}")
     out.append("ctor " + ",".join(str(pid[p]) for p in scn.providers()))
@@ -845,8 +853,8 @@ def build(scn: Scn, rt: Runtime, cls_name=None, picklable=False):
 
     def inline(at, g):
         out = []
-        for c in cbs_at(at, g, ("name", "callable", "evref")):
-            if c.style in ("name", "evref"):      # evref: the name of a declared event
+        for c in cbs_at(at, g, ("name", "callable", "evref", "attr")):
+            if c.style in ("name", "evref", "attr"):      # evref: the name of a declared event; attr: of a plain attribute
                 if c.name not in out:
                     out.append(c.name)
             else:
@@ -900,9 +908,12 @@ def build(scn: Scn, rt: Runtime, cls_name=None, picklable=False):
     model_ns, listener_ns = {}, {}
     hooks = scn.listener_kind == "hooks"
     for c in scn.cbs:
-        if c.style not in ("conv", "name") or c.alias_of:
+        if c.style not in ("conv", "name", "attr") or c.alias_of:
             continue
-        fn = make_fn(rt, c, with_self=not (hooks and c.provider.startswith("L")))
+        if c.style == "attr":     # a plain (non-callable) attribute used as a callback: its value is the callback's value
+            fn = POOL[attr_value(scn, c)]
+        else:
+            fn = make_fn(rt, c, with_self=not (hooks and c.provider.startswith("L")))
         if c.provider == "machine":
             ns[c.name] = fn
         elif c.provider == "model":
@@ -938,6 +949,10 @@ def build(scn: Scn, rt: Runtime, cls_name=None, picklable=False):
         model_ns["__len__"] = lambda self: 0
     elif scn.model_shape == "boolF":
         model_ns["__bool__"] = lambda self: False
+    elif scn.model_shape == "eq":          # records compared by key: all model objects are equal and hash alike
+        model_ns["__eq__"] = lambda a, b: getattr(b, "_verif_model", False)
+        model_ns["__hash__"] = lambda a: 11
+        model_ns["_verif_model"] = True
     suffix = "_" + cls.__name__ if picklable else ""
     mbase = ()
     if scn.model_shape == "lib":           # a user model that extends the library's own Model class
@@ -1017,10 +1032,21 @@ class Session:
         cls, model_cls, listeners = built
         rt.cls, rt.model_cls = cls, model_cls
         rt.model = model_cls()
+        self.set_model_attrs()
         if scn.cur0 is not None:
             rt.model.__dict__["_st"] = POOL[scn.cur0]
         rt.listeners = listeners
         self.cls, self.listeners = cls, listeners
+        for p, obj in listeners.items():      # plain-attribute callbacks of a listener: this instance's values
+            for c in scn.cbs:
+                if c.style == "attr" and c.provider == p and hasattr(obj, "__dict__"):
+                    obj.__dict__[c.name] = POOL[attr_value(scn, c)]
+
+    def set_model_attrs(self):
+        """plain-attribute callbacks provided by the model hold *this instance's* values"""
+        for c in self.scn.cbs:
+            if c.style == "attr" and c.provider == "model":
+                self.rt.model.__dict__[c.name] = POOL[attr_value(self.scn, c)]
 
     def op_construct(self, start="scn"):
         rt, scn = self.rt, self.scn
@@ -1126,6 +1152,7 @@ class Session:
             return "R", self.op_send(op[1], op[2] if len(op) > 2 else "send")
         if op[0] == "fresh":        # another instance of the same class over a fresh model
             rt.model = type(rt.model)()
+            self.set_model_attrs()
             return "R", self.op_construct(start=op[1])
         if op[0] == "set_allow":    # the public option is a plain attribute
             rt.sm.allow_event_without_transition = bool(op[1])
@@ -1322,6 +1349,9 @@ def impl_obs(scn: Scn, impl_lines):
 
 def model_obs(scn: Scn, raw_lines):
     cbmap = {c.id: c for c in scn.cbs}
+    silent = {str(c.id) for c in scn.cbs if c.style == "attr"}
+    if silent:      # reading a plain attribute runs no user code: nothing of it is observed
+        raw_lines = [l for l in raw_lines if not (l[:2] in ("B ", "S ", "E ") and l.split(" ")[3] in silent)]
     if scn.is_chain():
         # the library's own wrapper for an event used as a callback runs no user code: nothing of it is observed
         evrefs = {str(c.id) for c in scn.cbs if c.style == "evref"}
